@@ -130,6 +130,22 @@ def build_fsa(aut, model, start):
         d = {v: {ph[lab]: h for lab, h in nb.items()} for v, nb in model.items()}
         return fsa.FSA(d, start_vertices=[start]).rename_generators(
             {p_: lab for lab, p_ in ph.items()}, inplace=False)
+    if route == 5:
+        # the automaton is what is left after deleting a vertex of a larger one; the deleted
+        # vertex had edges from (two parallel ones where two labels are free) and to the others
+        labs = sorted({lab for nb in model.values() for lab in nb}, key=repr)
+        extra = "~X"
+        d = {v: dict(nb) for v, nb in model.items()}
+        d[extra] = {}
+        for i, v in enumerate(model):
+            free = [lab for lab in labs if lab not in model[v]]
+            for lab in free[:2]:
+                d[v][lab] = extra
+            if i < len(labs):
+                d[extra][labs[i]] = v
+        F = fsa.FSA(d, start_vertices=[start])
+        F.delete_vertex(extra)
+        return F
     F = fsa.FSA({}, start_vertices=[start])
     F.add_vertices(list(model))
     F.add_edges([(v, h, lab) for v, nb in model.items() for lab, h in nb.items()])
@@ -360,6 +376,11 @@ def label_set(draw, r, lk, max_labels=4):
     if lk in ("single", "names"):
         nl = draw(st.integers(1, min(max_labels, len(letters))))
         return draw(st.permutations(letters))[:nl]
+    if len(letters) >= 2 and draw(st.integers(0, 2)) == 0:
+        # labels of different lengths whose concatenations collide: x.yx and xy.x spell the
+        # same word along two different paths (the word is due once per accepting path)
+        x, y = draw(st.permutations(letters))[:2]
+        return [x, y + x, x + y] + ([x + x] if draw(st.booleans()) else [])
     nl = draw(st.integers(1, max_labels))
     labs = []
     for i in range(nl):
@@ -390,7 +411,7 @@ def automaton_case(draw, labels, max_n=8, dense=False):
     start = draw(st.integers(0, n - 1))
     return dict(n=n, start=start, labels=list(labels), edges=edges,
                 vn=draw(st.sampled_from(["int", "int", "str"])),
-                route=draw(st.sampled_from([0, 0, 1, 2, 3, 3, 4])), hide=draw(st.booleans()))
+                route=draw(st.sampled_from([0, 0, 1, 2, 3, 3, 4, 5, 5])), hide=draw(st.booleans()))
 
 
 def max_len_for(model, cap, hard=7):
@@ -414,13 +435,17 @@ def lengths(draw, model, cap=700, hard=7):
 
 @st.composite
 def accept_case(draw, modes, maxlens=(True, False), cap=700):
-    lk = draw(st.sampled_from(["single", "single", "words", "names"]))
+    lk = draw(st.sampled_from(["single", "single", "words", "words", "names"]))
     r = draw(rep_case(lk))
     if lk == "single" and draw(st.integers(0, 7)) == 0:
         aut = dict(free=draw(st.integers(1, min(3, r["k"]))))
     else:
         labels = draw(label_set(r, lk))
-        aut = draw(automaton_case(labels))
+        colliding = lk == "words" and len(labels) >= 3 and labels[1][1:] == labels[0] and \
+            labels[2][:1] == labels[0]
+        # (colliding label sets: few states and many edges, so that both spellings exist)
+        aut = draw(automaton_case(labels, max_n=3, dense=True)) if colliding else \
+            draw(automaton_case(labels))
     model, _ = model_of(aut)
     Ls = draw(lengths(model, cap=cap))
     return dict(aut=aut, rep=r, lk=lk, Ls=Ls, modes=list(modes), maxlens=list(maxlens))
@@ -612,7 +637,7 @@ def body_free(case, ctx):
 # memo reuse
 @st.composite
 def memo_case(draw):
-    lk = draw(st.sampled_from(["single", "single", "words", "names"]))
+    lk = draw(st.sampled_from(["single", "single", "words", "words", "names"]))
     r = draw(rep_case(lk))
     if lk == "single" and draw(st.integers(0, 7)) == 0:
         aut = dict(free=draw(st.integers(1, min(3, r["k"]))))
